@@ -57,9 +57,8 @@ func runRules(p *Prog, prop, tier string) *Ctx {
 	c := &Ctx{P: p, Tier: tier}
 	for i := range rules {
 		r := &rules[i]
-		if prop != "" && !hasProp(r.Props, prop) {
-			continue
-		}
+		// Every rule runs: obligations carry their own property tags (a kernel construct serves every
+		// property whose operations reach it through the call graph), and the caller filters by tag.
 		if r.ThoroughOnly && tier != "thorough" {
 			continue
 		}
